@@ -689,6 +689,29 @@ fn check_input(prop: &str, s: &dyn Subject, sd: &SubjectDef, p: &Prepared, input
             }
             "C13" => {
                 f.extend(callback_findings(s, sd, input, &obs, run.as_deref_mut(), key));
+                // "the match" a callback is handed is the longest match of the winning pattern: the callback-free twin (one unit
+                // variant per leaf, skips visible) against the reference, per attempt on the twin's own positions
+                if sd.family == "callbacks" {
+                    let t0 = lex_catch(s, 1, input, Mode::default());
+                    if !t0.anomalies.iter().any(|a| a.starts_with("panic")) {
+                        for it in &t0.items {
+                            if it.start >= input.len() {
+                                break;
+                            }
+                            let a = p.reflex.attempt(input, it.start, &p.prio);
+                            let bad = match (&a.verdict, it.kind) {
+                                (model::reference::Verdict::Match { end, winners, .. }, Some(leaf)) => !(winners.len() == 1 && winners[0] == leaf && *end == it.end),
+                                (model::reference::Verdict::Match { .. }, None) => true,
+                                (model::reference::Verdict::Error { .. }, Some(_)) => true,
+                                (model::reference::Verdict::Error { .. }, None) => false,
+                            };
+                            if bad {
+                                f.push(fnd("C13", it.start, format!("the match the callbacks are run on is not the longest match of the winning pattern: at {} the callback-free twin yields {:?} {}..{}, the reference says {:?}", it.start, it.kind, it.start, it.end, a.verdict)));
+                                break;
+                            }
+                        }
+                    }
+                }
                 // the protocol also holds when the buffer is a prefix: a callback runs once per winning match, on that match -
                 // never on a match the rest of the input extends (short inputs: every split point)
                 if sd.family == "callbacks" && input.len() <= 24 {
